@@ -4,7 +4,7 @@
 (* `tlc -simulate file=...` can be replayed on the real containers.          *)
 EXTENDS Iter
 VARIABLE obs
-ObsOf == ToJson([phase |-> phase', n |-> nuse', act |-> act', out |-> out', to |-> Proj(GC(heap'), Root)])
+ObsOf == ToJson([phase |-> phase', n |-> nuse', act |-> act', out |-> out', pout |-> pout', to |-> Proj(GC(heap'), Root)])
 SInit == IInit /\ obs = "init"
 SNext == INextRel /\ obs' = ObsOf
 SSpec == SInit /\ [][SNext]_<<ivars, obs>>
